@@ -143,7 +143,7 @@ pub fn c06(ctx: &Ctx) -> Report {
         s.cancel_rtx = true;
         s.resp = vec![(2, Auth::None, 0)];
         s.max_sends = 3;
-        runs.push(SliceRun { slice: s, depth: ctx.tier.pick(7, 9) });
+        runs.push(SliceRun { slice: s, depth: ctx.tier.pick(7, 8) });
     }
     let req = ["timed out after the full retransmission schedule", "two requests due at one poll, non-default order taken", "WaitUntil answered with three requests live", "reconfiguration shortened the schedule below the transmissions made", "completed after cancel_retransmissions()"];
     run_slices(ctx, runs, &req, "(a) single-transaction schedule sweep to completion: rto {1,37,499,500,3000,60000} x retransmits 0..=8 x last {0,1,7777,60000} + named configurations + default, UDP and TCP, every poll pattern {exact, early-then-exact, late 1 ms, late half interval} per wake-up (exhaustive up to 6 wake-ups, <= 2 non-exact above), reconfiguration / cancel_retransmissions / cancel at every step index; (b) state space with up to 3 concurrent transactions: send, ticks 1/250 ms, six poll timings x all orders, five configurations, cancel_retransmissions, one plain response; (c) long histories with 1..=300 concurrent requests under a mix of configurations (agent/scale.rs)", Some(sweep.merge(crate::agent::scale::sweep("C06", ctx.tier == Tier::Thorough))))
